@@ -35,6 +35,35 @@ theorem lying_length_fails (a b : UInt8) (body : Bytes) (h : body.length < be16 
     readMsgFromTCP (a :: b :: body) = .short := by
   simp [readMsgFromTCP, h]
 
+/-! ### datagrams: `ReadMsgFromUDP` -/
+
+/-- ★ Reading a datagram never panics: it yields a message or an error, for every octet string. -/
+theorem readMsgFromUDP_total (b : Bytes) :
+    (∃ m, readMsgFromUDP b = .msg m) ∨ ∃ n, readMsgFromUDP b = .bad n := by
+  cases h : readMsgFromUDP b with
+  | msg m => exact Or.inl ⟨m, rfl⟩
+  | bad n => exact Or.inr ⟨n, rfl⟩
+  | panic => exact absurd h (readMsgFromUDP_ne_panic b)
+
+/-- ★ A message that is not the decoding of the datagram is produced only from a datagram that has the 12
+    header octets with TC set; it carries that header's id, TC=1 and no records (so all it can do is send the
+    query again over TCP). -/
+theorem header_only_message_needs_tc {b : Bytes} {m : Msg} (h : readMsgFromUDP b = .msg m)
+    (hn : unpackMsg (b.take udpBuf) ≠ .ok m) :
+    ∃ a c f rest, b.take udpBuf = a :: c :: f :: rest ∧ 12 ≤ (b.take udpBuf).length ∧ (f.toNat / 2) % 2 = 1 ∧
+      m.hdr.id = be16 a c ∧ m.hdr.truncated = true ∧
+      m.questions = [] ∧ m.answers = [] ∧ m.authorities = [] ∧ m.additionals = [] := by
+  rcases readMsgFromUDP_msg h with hm | ⟨_, hh⟩
+  · exact absurd hm hn
+  · obtain ⟨a, c, f, rest, h1, h2, h3, h4, h5, _, h7, h8, h9, h10⟩ := headerOnly_some hh
+    exact ⟨a, c, f, rest, h1, h2, h3, h4, h5, h7, h8, h9, h10⟩
+
+/-- A datagram without TC in its header that does not decode yields no message (it is skipped or, if empty,
+    ends the connection). -/
+theorem undecodable_without_tc_is_dropped (b : Bytes) (hd : unpackMsg (b.take udpBuf) = .err)
+    (hh : headerOnly (b.take udpBuf) = none) : ∃ n, readMsgFromUDP b = .bad n := by
+  simp [readMsgFromUDP, readMsgFromUDPn, hd, hh]
+
 /-! ### the pipelined read loop -/
 
 /-- ★ The read loop of a pipelined connection (udp, tcp+pipeline, tls+pipeline) makes progress on every reply
@@ -220,7 +249,7 @@ theorem unitStep_tcp_msg {b : Bytes} {m : Msg} (h : unitStep true b = .msg m) : 
   · simp at h
   · simp at h
 
-theorem unitStep_udp_msg {b : Bytes} {m : Msg} (h : unitStep false b = .msg m) : unpackMsg (b.take udpBuf) = .ok m := by
+theorem unitStep_udp_msg {b : Bytes} {m : Msg} (h : unitStep false b = .msg m) : readMsgFromUDP b = .msg m := by
   unfold unitStep at h
   simp only [Bool.false_eq_true, if_false] at h
   split at h
@@ -277,14 +306,17 @@ theorem quic_justified {s : Bytes} {t : Term} (h : quicFirst s t = .resp ∨ qui
   | panic => simp [quicFirst, hrd] at h
 
 theorem udp_justified {ds : List Bytes} {tl : List Tok} (h : udpFirst ds tl = .resp ∨ udpFirst ds tl = .any) :
-    ds.any (fun d => decodesWithId (d.take udpBuf) (some 0)) = true := by
+    ds.any (fun d => decodesWithId (d.take udpBuf) (some 0) || tcHeaderWithId (d.take udpBuf) 0) = true := by
   simp only [udpFirst, stuck_false, Bool.false_eq_true, if_false] at h
   cases hd : delivered (runLoop false false [(0, ⟨[], 1⟩)] 0 (ds.map .unit)).1 0 with
   | none => simp [hd] at h
   | some m =>
     obtain ⟨hid, b, hb, hus⟩ := delivered_was_sent false [(0, ⟨[], 1⟩)] (by simp) _ 0 m hd
     rw [List.any_eq_true]
-    exact ⟨b, hb, by simp [decodesWithId, unitStep_udp_msg hus, hid]⟩
+    refine ⟨b, hb, ?_⟩
+    rcases readMsgFromUDP_msg (unitStep_udp_msg hus) with hm | ⟨_, hh⟩
+    · simp [decodesWithId, hm, hid]
+    · simp [tcHeaderWithId, hh, hid]
 
 theorem clientView_body {tr : String} {h : Http} {t : Term} {b : Bytes}
     (hv : clientView tr h t = .body b ∨ clientView tr h t = .cut b) :
@@ -393,27 +425,58 @@ theorem returned_reply_was_sent (c : Case) (h : predictFirst c = .resp ∨ (pred
           · simp only [hu, Bool.false_eq_true, if_false] at h ⊢
             have hf : framed c = false := by simp [framed, hw, hre, hp, hq, hu]
             rcases h with h | ⟨_, h2⟩
-            · exact doh_justified h
+            · rw [Bool.or_eq_true]; right; exact doh_justified h
             · rw [hf] at h2; exact absurd h2 (by simp)
+
+/-- the read buffer of the code holds any UDP datagram (8cbdefd) -/
+theorem udpBuf_holds_any_datagram : udpBuf = maxDatagram := by decide
+
+/-- ★ The only datagram the server sent yields a message for the query's id (decoded whole — up to the size
+    of a UDP datagram — or the TC stand-in, the TCP service being the correct one): the model returns a reply. -/
+theorem only_reply_is_returned (c : Case) (h : mustAnswer c = true) : predictFirst c = .resp := by
+  unfold mustAnswer at h
+  simp only [Bool.and_eq_true, Bool.not_eq_eq_eq_not, Bool.not_true, beq_iff_eq] at h
+  obtain ⟨⟨hw, htr⟩, hd⟩ := h
+  split at hd
+  · next d hds =>
+    split at hd
+    · next m hm =>
+      simp only [Bool.and_eq_true, beq_iff_eq, Bool.or_eq_true, Bool.not_eq_eq_eq_not, Bool.not_true] at hd
+      rw [← udpBuf_holds_any_datagram] at hm
+      have hu : unitStep false d = .msg m := by simp [unitStep, readMsgFromUDP, hm]
+      simp only [predictFirst, hw, Bool.false_eq_true, if_false, htr]
+      simp [isReuse, isPipe, udpFirst, hds, runLoop, hu, deliver, isStuck, isClosed, delivered, qget, qset, hd.1]
+      intro ht hne
+      rcases hd.2 with hf | he
+      · rw [ht] at hf; exact absurd hf (by simp)
+      · exact absurd (by simpa using he) hne
+    · simp at hd
+  · simp at hd
 
 /-- The output of the model for a case, `echo` being the observed value where the prediction is left open. -/
 def modelOut (c : Case) (echo : String) : Out :=
   ⟨"ok", (match predictFirst c with | .any => echo | f => f.str), "ok"⟩
 
 /-- ★ The model meets the specification on every case: the upstream keeps serving, memory does not follow a
-    length field, and a reply is returned only if one was sent. Where the prediction is left open the echoed
-    observation must itself be one of the two legal outcomes (and, for DoH, be justified). -/
+    length field, a reply is returned only if one was sent, and the only reply sent is not dropped. Where the
+    prediction is left open the echoed observation must itself be one of the two legal outcomes (and, for DoH,
+    be justified). -/
 theorem model_meets_spec (c : Case) (echo : String)
     (he : predictFirst c = .any → echo = "err" ∨ (echo = "resp" ∧ (framed c = true ∨ justified c = true))) :
     spec c (modelOut c echo) = true := by
+  have hma : predictFirst c ≠ .resp → mustAnswer c = false := by
+    intro hp
+    cases hm : mustAnswer c with
+    | false => rfl
+    | true => exact absurd (only_reply_is_returned c hm) hp
   unfold spec modelOut
   cases hp : predictFirst c with
   | panic => exact absurd hp (upstream_reply_noPanic c)
-  | err => simp [First.str]
+  | err => simp [First.str, hma (by rw [hp]; simp)]
   | resp => simp [First.str, returned_reply_was_sent c (Or.inl hp)]
   | any =>
     rcases he hp with rfl | ⟨rfl, hj⟩
-    · simp
+    · simp [hma (by rw [hp]; simp)]
     · rcases hj with hj | hj
       · simp [returned_reply_was_sent c (Or.inr ⟨hp, hj⟩)]
       · simp [hj]
@@ -431,7 +494,13 @@ theorem pins :
     Facts.c01up_deliverDefault = "default: dnsmsg.ReleaseMsg(r)" ∧
     Facts.c01up_selects = 1 ∧
     Facts.c01up_nilChan = "resChan != nil" ∧
-    Facts.c01up_udpBufSize = 4096 ∧
+    Facts.c01up_udpBufSize = 65535 ∧
+    Facts.c01up_udpTcCond = "err != nil && n >= 12 && b[2]&(1<<1) != 0" ∧
+    Facts.c01up_udpTcNew = "m = dnsmsg.NewMsg()" ∧
+    Facts.c01up_udpTcId = "m.Header.ID = binary.BigEndian.Uint16(b)" ∧
+    Facts.c01up_udpTcResp = "m.Header.Response = b[2]&(1<<7) != 0" ∧
+    Facts.c01up_udpTcFlag = "m.Header.Truncated = true" ∧
+    Facts.c01up_dohRetryCond = "connErr && (reused.Load() || isQuicConnErr(err) || isHttp3Err(err)) && retry < 3 && ctx.Err() == nil" ∧
     Facts.c01up_udpMinBuf = 2048 ∧
     Facts.c01up_udpSkipCond = "n > 0" ∧
     Facts.c01up_loopContinues = 2 ∧
@@ -448,7 +517,7 @@ theorem pins :
     Facts.c01up_dohLimit = 65535 ∧
     Facts.c01up_dohBufUses = 2 ∧
     Facts.c01up_dohContentLength = 0 ∧
-    Facts.c01up_dohUnpack = "return dnsmsg.UnpackMsg(bb.Bytes())" ∧
+    Facts.c01up_dohUnpack = "m, err := dnsmsg.UnpackMsg(bb.Bytes())" ∧
     Facts.c01up_reuseRead = "r, _, err := dnsutils.ReadMsgFromTCP(c.c)" ∧
     Facts.c01up_reuseIdCond = "r.Header.ID != qid" ∧
     Facts.c01up_reuseQid = "qid := c.nextQid" ∧
